@@ -11,7 +11,7 @@ import (
 func profSubs() *Profile {
 	w := map[string]int{
 		"block": 20, "epoch": 8, "longblock": 8, "month": 8,
-		"buy": 14, "buy_adv_replace": 4, "autorenew": 6, "addproject": 2, "delproject": 1,
+		"buy": 14, "buy_adv_replace": 4, "buy_then_upgrade": 3, "autorenew": 6, "addproject": 2, "delproject": 1,
 		"plan_add": 4, "plan_del": 2, "relay": 10, "param": 1, "stake": 1,
 	}
 	return &Profile{Name: "subs", W: w, Providers: 5, Consumers: 5, Delegators: 1, Validators: 2, KeepPools: true, SmallBalances: true, EpochsToSave: 2, EpochBlocks: 5}
